@@ -83,7 +83,7 @@ Definition table_here (pk : kind) (pw : bool) (k : kind) (w : bool) (l : list tr
   (* where this box may be *)
   && (match k with
       | KTable => is_k KBlock pk && pw
-      | KInlineTable => is_k KInlineBlock pk && pw
+      | KInlineTable => (is_k KInlineBlock pk || is_k KBlock pk) && pw   (* block: an inline-table flex / grid item *)
       | KRowGroup => is_table pk
       | KRow => is_k KRowGroup pk
       | KCell => is_k KRow pk
